@@ -11,6 +11,8 @@ import (
 	"time"
 
 	"github.com/llir/llvm/ir"
+	"github.com/llir/llvm/ir/constant"
+	"github.com/llir/llvm/ir/types"
 	"github.com/llir/llvm/ir/value"
 	"github.com/llir/llvm/zzsim/simrt"
 )
@@ -127,7 +129,27 @@ func applyStart(m *ir.Module, start string) {
 		if len(m.Funcs) > 0 {
 			_ = m.Funcs[0].LLString()
 		}
+	case "stale":
+		// Printed once, then extended: the IDs left by the print are stale and
+		// the next print has to renumber (writes under the mutexes again).
+		_ = m.String()
+		staleEdit(m)
 	}
+}
+
+// staleEdit extends an already printed module so that the numbers of unnamed
+// globals, functions and locals all shift.
+func staleEdit(m *ir.Module) {
+	for _, f := range m.Funcs {
+		if len(f.Blocks) == 0 {
+			continue
+		}
+		b := f.Blocks[0]
+		in := ir.NewAdd(constant.NewInt(types.I32, 1), constant.NewInt(types.I32, 2))
+		b.Insts = append([]ir.Instruction{in}, b.Insts...)
+	}
+	g := ir.NewGlobalDef("", constant.NewInt(types.I32, 42))
+	m.Globals = append([]*ir.Global{g}, m.Globals...)
 }
 
 type c13Outcome struct {
@@ -211,7 +233,7 @@ func c13Run(sc *C13Scenario) *c13Outcome {
 	if pan, msg := protect(func() {
 		applyStart(twin, sc.Start)
 		applyStart(m, sc.Start)
-		if sc.Start == "fresh" || sc.Start == "func-printed" {
+		if sc.Start != "printed" {
 			// All tasks make the same calls on the same receiver; the lone
 			// sequential call sequence is that of task 0.
 			var ref []string
@@ -302,11 +324,13 @@ func c13GenScenario(r *rng, srcs []*moduleSource) *C13Scenario {
 	sc := &C13Scenario{}
 	src := srcs[r.intn(len(srcs))]
 	sc.Module = src.Name
-	switch x := r.intn(10); {
+	switch x := r.intn(12); {
 	case x < 5:
 		sc.Start = "fresh"
-	case x < 9:
+	case x < 8:
 		sc.Start = "printed"
+	case x < 11:
+		sc.Start = "stale"
 	default:
 		sc.Start = "func-printed"
 	}
@@ -418,6 +442,9 @@ func c13Count(sum *Summary, sc *C13Scenario, o *c13Outcome) {
 		sum.Probes["a task found the mutex held by another printer"]++
 		if sc.Start == "fresh" {
 			sum.Probes["two tasks contended for the first print"]++
+		}
+		if sc.Start == "stale" {
+			sum.Probes["two tasks contended for the renumbering print of an edited module"]++
 		}
 	}
 	if s.Switches >= 10 {
